@@ -3,6 +3,7 @@
 From Coq Require Import Reals Lra List ZArith Bool.
 From Inferno Require Import Base.Num Base.NumR Gen.Interpolation Gen.Extrapolation C20.InterpProofs.
 Open Scope R_scope.
-Theorem roundtrip_next : forall s t p n dt : R, roundtrip (interp_next RN) (extrap_next RN) s t p n dt.
+Theorem roundtrip_next : forall s t p n dt : T RN,
+  interp_next RN (fst (extrap_next RN s t p n dt)) (snd (extrap_next RN s t p n dt)) t dt = s.
 Proof. exact (@Inferno.C20.InterpProofs.roundtrip_next). Qed.
 Print Assumptions roundtrip_next.
